@@ -7,7 +7,7 @@
 From Coq Require Import List String Bool Arith ZArith Permutation Sorting.Sorted.
 From Verif Require Import Common.ObjStore Common.CommitPoint gen.Gen_Bm25.
 From Verif Require Import Bm25.Model Bm25.ProofsRank Bm25.ProofsQuery Bm25.ProofsHist Bm25.ProofsSpec
-     Bm25.Persist Bm25.Run.
+     Bm25.Persist Bm25.Run Bm25.BModel Bm25.ProofsBucket.
 Import ListNotations.
 Open Scope list_scope.
 
@@ -89,6 +89,49 @@ Theorem C11_reload_same_answers :
     In d (exec tokenize (reload (run tokenize h)) q false) <-> In d (exec tokenize (run tokenize h) q false).
 Proof. exact reload_same_answers. Qed.
 Print Assumptions C11_reload_same_answers.
+
+(* ---------------------------------------------------------------------------------------------
+   1b. which buckets a mutation must dirty (bucket-level model BModel.v; the placement of new
+       tokens is an arbitrary oracle [place])
+   --------------------------------------------------------------------------------------------- *)
+(* after a successful insert every token of the document is owned by a bucket that is dirty, lists
+   the token and records the document in doc_ids — also when the posting push was a no-op on a
+   stale identical (id, freq) pair, so the next flush rewrites that bucket's doc_tokens snapshot *)
+(* [good id buckets bid tok] := bucket [bid] exists, is dirty, records [id] in doc_ids and lists [tok] *)
+Theorem C11_insert_dirties_every_owner_bucket :
+  forall tokenize (s : bstate) (id : docid) (text : string) (place : list (token * Z)) (s' : bstate),
+    b_insert tokenize s id text place = (s', InsOk) ->
+    forall tok, In tok (toks tokenize text) ->
+      exists bid es,
+        slookup tok (bs_post s') = Some (bid, es) /\ In id (map fst es) /\ good id (bs_buckets s') bid tok.
+Proof. exact b_insert_dirties_owners. Qed.
+Print Assumptions C11_insert_dirties_every_owner_bucket.
+
+(* after remove(id, any text) no bucket records the document any more (every bucket that did was
+   rewritten as dirty by the final sweep of remove) *)
+Theorem C11_remove_clears_doc_ids :
+  forall tokenize (s : bstate) (id : docid) (text : string) (s' : bstate) (r : bool),
+    b_remove tokenize s id text = (s', r) ->
+    forall bid bk, In (bid, bk) (bs_buckets s') -> ~ In id (bk_docs bk).
+Proof. exact b_remove_forgets_document. Qed.
+Print Assumptions C11_remove_clears_doc_ids.
+
+(* C11_reload_same_answers above is about the whole-index model.  FULL bucket-level statement, NOT
+   proved (partial): for every history in which no flush happens while a live document has a posting
+   entry in a bucket whose doc_ids lacks it (the stale-reinsert classes),
+     denote (abs (b_load (b_flush s))) q d = denote (abs s) q d.
+   What is proved is the per-mutation part above; the rest is tied to the implementation by the
+   per-step comparison of the bucket bookkeeping, by comparing bucket-level and whole-index model
+   after every step (Run.models_agree) and by the live = reloaded oracle at every flush. *)
+Example C11_bucket_reload_nonvacuous :
+  let s1 := fst (b_insert ws_tokens b_new 1%Z "red fox" [("red", 0%Z); ("fox", 0%Z)]) in
+  let s2 := b_flush s1 in
+  let s3 := b_flush (fst (b_remove ws_tokens s2 1%Z "salt")) in       (* stale entries stay *)
+  let s4 := fst (b_insert ws_tokens s3 1%Z "red fox" []) in           (* both pushes are no-ops *)
+  dirty_buckets s3 = [] /\ dirty_buckets s4 = [0%Z] /\
+  exec ws_tokens (abs (b_load (b_flush s4))) (QTerm "fox") false = [1%Z] /\
+  bs_docs (b_load (b_flush s4)) = [(1%Z, 2)].
+Proof. vm_compute. repeat split; reflexivity. Qed.
 
 (* ---------------------------------------------------------------------------------------------
    3. counters
